@@ -593,7 +593,9 @@ def rule_raise_exit(model):
                         for x in fh_nodes),
         "''": any((isinstance(x, ast.Compare) and any(
             isinstance(y, ast.Constant) and y.value == ''
-            for y in [x.left] + x.comparators)) or (
+            for z in [x.left] + x.comparators
+            for y in ([z] + (list(z.elts) if isinstance(
+                z, (ast.Tuple, ast.List, ast.Set)) else [])))) or (
             isinstance(x, ast.UnaryOp) and isinstance(x.op, ast.Not) and
             isinstance(x.operand, ast.Name)) for x in fh_nodes),
         'match_base': any(isinstance(x, ast.Call) and
